@@ -11,6 +11,8 @@ import (
 	"os"
 	"strings"
 	"time"
+
+	"github.com/refraction-networking/uquic/qlog"
 )
 
 type wStreamAcct struct {
@@ -343,6 +345,63 @@ func (o *WireOracles) Finish() {
 		}
 	}
 	o.res.ProbeN("tap-packets", int64(len(o.w.Tap.All)))
+	o.checkEndpointView()
+}
+
+// checkEndpointView compares what the endpoints themselves logged (qlog) with the simulator's ground truth.
+//   - C05, tampering: a packet whose only delivered copies were damaged inside that packet must never be logged as
+//     received by the endpoint (any modification of a protected packet is rejected).
+//   - C20 (reach check on real connections): the congestion window an endpoint reports stays between two full-size
+//     packets and the maximum.
+func (o *WireOracles) checkEndpointView() {
+	if o.n == nil {
+		return
+	}
+	type pk struct {
+		typ string
+		pn  int64
+	}
+	for side := 0; side < 2; side++ {
+		ql := o.n.QLog[side]
+		if ql == nil {
+			continue
+		}
+		dirIn := 1 - side
+		// packets (type, number) that reached this endpoint intact at least once / only damaged
+		intact, damagedOnly := map[pk]bool{}, map[pk]*TapPacket{}
+		multi := len(o.w.Tap.Conns) > 1 // several connections share packet numbers: only judge single-connection runs
+		for _, rec := range o.w.Log[dirIn] {
+			for i, p := range rec.Pkts {
+				if !p.Opened || p.Conn == nil || p.Conn.Shadow {
+					continue
+				}
+				k := pk{[]string{"initial", "0RTT", "handshake", "retry", "version_negotiation", "1RTT", ""}[p.Type], p.PN}
+				if len(rec.Delivered) > 0 && rec.PktState[i] == 0 {
+					intact[k] = true
+				} else if len(rec.Delivered) > 0 && rec.PktState[i] == 2 {
+					damagedOnly[k] = p
+				}
+			}
+		}
+		ql.mu.Lock()
+		for _, e := range ql.Events {
+			switch ev := e.Ev.(type) {
+			case qlog.PacketReceived:
+				k := pk{string(ev.Header.PacketType), int64(ev.Header.PacketNumber)}
+				if p, bad := damagedOnly[k]; bad && !intact[k] && !multi {
+					o.report("C05", "an endpoint processed a packet although every copy delivered to it had been modified in transit", "%s logged %s pn %d as received; the only delivered copy was damaged: %s", dirName(side), k.typ, k.pn, p.String())
+				}
+			case qlog.MetricsUpdated:
+				if ev.CongestionWindow != 0 {
+					o.res.Probe("qlog-cwnd-sample")
+					if ev.CongestionWindow < 2*1200 || ev.CongestionWindow > 10001*1500 {
+						o.report("C20", "congestion window reported by a real connection is outside its bounds", "%s: cwnd %d", dirName(side), ev.CongestionWindow)
+					}
+				}
+			}
+		}
+		ql.mu.Unlock()
+	}
 }
 
 // generationOf: key generation a delivered 1-RTT packet was protected with (the tap opened it at send time).
